@@ -1,4 +1,5 @@
 """Executor for conversion cases (C13)."""
+import json
 import contextlib
 import io
 import os
@@ -77,9 +78,14 @@ def _exec_nest(case, out):
         out["unc_exc"] = "err:" + type(ex).__name__
 
 
+def jtext(x):
+    """canonical JSON text (tuples as lists): values of any shape and type can then be compared by the validator"""
+    return json.dumps(x, separators=(",", ":"), default=repr)
+
+
 def exec_roundtrip(case, out):
     depth, d = case["depth"], case.get("d", 0)
-    out.update({"d": d, "load_exc": "ok", "eq": 0, "istensor": 0, "rank0": 0, "ids": [], "ids_back": [], "shape": [], "shape_back": [],
+    out.update({"d": d, "load_exc": "ok", "eq": 0, "istensor": 0, "rank0": 0, "ids": "", "ids_back": "", "shape": "", "shape_back": "",
                 "name": "", "name_back": "", "val": 0, "val_back": 0, "orig": {"k": "F", "e": []}, "back": {"k": "F", "e": []}})
     mode = "seqflat" if case.get("flatten") else "int"
     if case["obj"] == "rank0":
@@ -104,7 +110,7 @@ def exec_roundtrip(case, out):
     if case.get("flatten"):
         t = t.flattenRanks(depth=0, levels=case["flatten"], coord_style=case.get("fstyle", "tuple"))
     if case["obj"] == "tensor":
-        out.update({"istensor": 1, "ids": [list(x) if isinstance(x, (list, tuple)) else x for x in t.getRankIds()], "shape": shape_list(t.getShape()), "name": t.getName(),
+        out.update({"istensor": 1, "ids": jtext(t.getRankIds()), "shape": jtext(t.getShape()), "name": jtext(t.getName()),
                     "orig": proj.proj_fiber(t.getRoot(), mode=mode)})
         if case["via"] == "yaml":
             path = tmpfile()
@@ -114,8 +120,8 @@ def exec_roundtrip(case, out):
                     with contextlib.redirect_stdout(io.StringIO()):
                         # the two documented loaders: the class method and the (older) constructor form
                         b = Tensor(yamlfile=path, default=d) if case.get("loader") == "ctor" else Tensor.fromYAMLfile(path)
-                    out.update({"ids_back": [list(x) if isinstance(x, (list, tuple)) else x for x in b.getRankIds()], "shape_back": shape_list(b.getShape()),
-                                "name_back": b.getName(), "back": proj.proj_fiber(b.getRoot(), mode=mode), "eq": 1 if (b == t and t == b) else 0})
+                    out.update({"ids_back": jtext(b.getRankIds()), "shape_back": jtext(b.getShape()),
+                                "name_back": jtext(b.getName()), "back": proj.proj_fiber(b.getRoot(), mode=mode), "eq": 1 if (b == t and t == b) else 0})
                 except BaseException as ex:  # noqa: B036
                     out["load_exc"] = "err:" + type(ex).__name__
             finally:
